@@ -20,7 +20,12 @@ impl Instruction {
             for arg in &self.arguments[..] {
                 args.push(' ');
                 args.push('\"');
-                args.push_str(&arg.replace('\\', "\\\\").replace('"', "\\\""));
+                args.push_str(
+                    &arg.replace('\\', "\\\\")
+                        .replace('"', "\\\"")
+                        // NUL ends a record of the binary form
+                        .replace('\0', "\\0"),
+                );
                 args.push('\"');
             }
         }
